@@ -13,7 +13,9 @@ pub(super) fn decode(src: &mut &[u8], len: usize) -> io::Result<Vec<u8>> {
         .zip(uncompressed_sizes)
         .map(|(compressed_size, uncompressed_size)| {
             let buf = split_off(src, compressed_size)?;
-            super::decode(buf, uncompressed_size)
+            let chunk = super::decode(buf, uncompressed_size)?;
+            validate_chunk_size(chunk.len(), uncompressed_size)?;
+            Ok(chunk)
         })
         .collect::<io::Result<_>>()?;
 
@@ -40,6 +42,18 @@ fn build_uncompressed_sizes(len: usize, chunk_count: NonZero<usize>) -> Vec<usiz
             if r > i { q + 1 } else { q }
         })
         .collect()
+}
+
+// A chunk can declare its own uncompressed size, which must be the size of its stripe.
+fn validate_chunk_size(actual: usize, expected: usize) -> io::Result<()> {
+    if actual == expected {
+        Ok(())
+    } else {
+        Err(io::Error::new(
+            io::ErrorKind::InvalidData,
+            format!("invalid stripe chunk size: expected {expected}, got {actual}"),
+        ))
+    }
 }
 
 fn transpose<T>(chunks: &[T], uncompressed_size: usize) -> Vec<u8>
